@@ -18,7 +18,7 @@ for pid in ids:
         "evidence_file": "/verif/evidence/%s.json" % pid,
         "replay_cmd_template": "bin/check %s --replay {path}" % pid,
         "engine": "coq-correspondence",
-        "level_claimed": {"category": p.get("level", "proof"), "text": p["level_text"], "design_ref": p.get("design_ref", "DESIGN.md section 8 (%s)" % pid)},
+        "level_claimed": {"category": p.get("level", "proof"), "text": p["level_text"], "design_ref": p.get("design_ref", "DESIGN.md section 9 (%s), section 5 (ties), section 11 (trusted base)" % pid)},
         "level_note": p["level_note"],
         "technique": p["technique"],
     })
@@ -33,10 +33,10 @@ m = {
         "add_only": True,
     },
     "engines": [{"name": "coq-correspondence", "path": "bin/check", "serves_properties": [c["property_id"] for c in checks],
-                 "kind_free_text": "Coq 8.16.1 theorems over hand-written executable models (coq/theories), extracted to OCaml (ocaml/driver.ml) and compared with the real code (harness/, -tags verif) on generated inputs, operation sequences and scheduled histories"}],
+                 "kind_free_text": "Coq 8.16.1 theorems over hand-written executable models (coq/theories), extracted to OCaml (ocaml/driver.ml) and compared with the real code (harness/, -tags verif) on generated inputs, operation sequences and scheduled histories; an integrated model of a slice of the gateway (Comp/Core.v) is run in lock-step with histories of the real gateway (ocaml/corelock.ml)"}],
     "checks": checks,
     "not_applicable": na,
-    "notes": "See DESIGN.md. known_findings.json lists recorded genuine defects; replays/ holds their replays.",
+    "notes": "See DESIGN.md. known_findings.json lists recorded genuine defects and the repaired ones (fixed:); replays/ holds their replays; seeded/ holds 124 seeded breaking changes with the report each check gave (seeded/README.md).",
 }
 json.dump(m, open(os.path.join(ROOT, "MANIFEST.json"), "w"), indent=1)
 print("claimed", len(checks), "not claimed", len(na))
